@@ -349,6 +349,7 @@ class Expander:
                     for s in node.body:
                         if isinstance(s, ast.FunctionDef):
                             self._do_function(modname, node, s)
+            sink_selected_receivers(m.tree)
             for node in ast.walk(m.tree):
                 for child in ast.iter_child_nodes(node):
                     child._parent = node
@@ -358,6 +359,54 @@ class Expander:
     def _do_function(self, modname, cls, fn: ast.FunctionDef):
         self._current = f"{modname}:{cls.name}.{fn.name}" if cls is not None else f"{modname}:{fn.name}"
         self._rewrite_block(modname, cls, fn, fn.body, _locals_of(fn), 0)
+
+
+MUTATORS = {"append", "appendleft", "extend", "insert", "add", "update", "setdefault", "remove", "discard", "pop", "popleft", "clear"}
+
+
+def sink_selected_receivers(tree: ast.AST):
+    """`if c: t = A` / `else: t = B` (or `t = A if c else B`) directly followed by ONE mutation `t[...].m(...)` / `t.m(...)`,
+    with `t` used nowhere else: rewritten to `if c: A[...].m(...)` / `else: B[...].m(...)`. Picking the container first and
+    mutating it through the local is the same program; the rules read which container is mutated under which condition."""
+    for fn in [n for n in ast.walk(tree) if isinstance(n, ast.FunctionDef)]:
+        loads = {}
+        stores = {}
+        for x in ast.walk(fn):
+            if isinstance(x, ast.Name):
+                (loads if isinstance(x.ctx, ast.Load) else stores).setdefault(x.id, []).append(x)
+        for owner in ast.walk(fn):
+            for field in ("body", "orelse", "finalbody"):
+                blk = getattr(owner, field, None)
+                if not (isinstance(blk, list) and blk and isinstance(blk[0], ast.stmt)):
+                    continue
+                i = 0
+                while i + 1 < len(blk):
+                    sel, use = blk[i], blk[i + 1]
+                    t = test = a = b = None
+                    if isinstance(sel, ast.Assign) and len(sel.targets) == 1 and isinstance(sel.targets[0], ast.Name) and isinstance(sel.value, ast.IfExp):
+                        t, test, a, b = sel.targets[0].id, sel.value.test, sel.value.body, sel.value.orelse
+                    elif (isinstance(sel, ast.If) and len(sel.body) == 1 and len(sel.orelse) == 1 and all(isinstance(z, ast.Assign) and len(z.targets) == 1 and isinstance(z.targets[0], ast.Name) for z in (sel.body[0], sel.orelse[0]))
+                          and sel.body[0].targets[0].id == sel.orelse[0].targets[0].id):
+                        t, test, a, b = sel.body[0].targets[0].id, sel.test, sel.body[0].value, sel.orelse[0].value
+                    ok = t is not None and isinstance(use, ast.Expr) and isinstance(use.value, ast.Call) and isinstance(use.value.func, ast.Attribute) and use.value.func.attr in MUTATORS
+                    if ok:
+                        recv = use.value.func.value
+                        root = recv.value if isinstance(recv, ast.Subscript) else recv
+                        uses_in_stmt = [x for x in ast.walk(use) if isinstance(x, ast.Name) and x.id == t]
+                        ok = isinstance(root, ast.Name) and root.id == t and len(uses_in_stmt) == 1 and len(loads.get(t, [])) == 1 and len(stores.get(t, [])) == (1 if isinstance(sel, ast.Assign) else 2) \
+                            and isinstance(a, (ast.Name, ast.Attribute)) and isinstance(b, (ast.Name, ast.Attribute)) and not any(isinstance(z, ast.Call) for z in ast.walk(test))
+                    if ok:
+                        ua, ub = _clone(use), _clone(use)
+                        for u_, v_ in ((ua, a), (ub, b)):
+                            for x in ast.walk(u_):
+                                for f_, val in ast.iter_fields(x):
+                                    if isinstance(val, ast.Name) and val.id == t:
+                                        setattr(x, f_, _clone(v_))
+                        new_if = ast.copy_location(ast.If(test=test, body=[ua], orelse=[ub]), sel)
+                        blk[i:i + 2] = [new_if]
+                        ast.fix_missing_locations(new_if)
+                        continue
+                    i += 1
 
 
 def _replace_node(root: ast.AST, old: ast.AST, new: ast.AST):
